@@ -23,3 +23,7 @@ Check C12_scale_rotate : forall g f r,
     if flt f zero then {| mag := fmul (mag g) (fabs f); ang := add_vv (negate (ang g)) r |}
     else {| mag := fmul (mag g) f; ang := add_vv (ang g) r |}.
 Print Assumptions C12_scale_rotate.
+Check C12_reflect_law : forall g axis, canonp (rem (ang g)) -> Canon (ang axis) ->
+  Rabs (theta (ang (reflect g axis)) - (2 * theta (ang axis) + 8 * R_ Q - theta (base_angle (ang g))))
+    <= 3 * R_ eps10 + 7 * / 4503599627370496.
+Print Assumptions C12_reflect_law.
